@@ -404,7 +404,9 @@ func Sentinel(n *Node) Val {
 	return VNil()
 }
 
-var falsyForms = []Val{VI(0), VB(false), VS("0"), VS("false"), VT("0001-01-01T00:00:00Z"), VF(0)}
+// present although they look like nothing: zeros, and strings of characters that are invisible but not white space
+var falsyForms = []Val{VI(0), VB(false), VS("0"), VS("false"), VT("0001-01-01T00:00:00Z"), VF(0),
+	VS("\u200b"), VS("\ufeff"), VS("\x00"), VS("\x1b"), VS(" \u200d\t"), VS("\u2060")}
 
 func genC04(r *Rng, tier string) *World {
 	w := &World{Prop: "C04", Cfg: DrawDecCfg(r)}
